@@ -160,6 +160,21 @@ class BatchResult(Generic[R], BatchResultProtocol[R]):  # noqa: PYI059
                 if failure_count > 0:
                     return CompletionReason.FAILURE_TOLERANCE_EXCEEDED
             else:
+                # No failure tolerance configured (e.g. only min_successful): the executor stops
+                # at the first failure (see ExecutionCounters.should_continue), so an unfinished
+                # batch with a failure was ended by that failure, not by completion
+                if (
+                    completion_config.tolerated_failure_count is None
+                    and completion_config.tolerated_failure_percentage is None
+                    and failure_count > 0
+                    and completed_count < total_count
+                    and not (
+                        completion_config.min_successful is not None
+                        and success_count >= completion_config.min_successful
+                    )
+                ):
+                    return CompletionReason.FAILURE_TOLERANCE_EXCEEDED
+
                 # Check specific tolerance thresholds
                 if (
                     completion_config.tolerated_failure_count is not None
